@@ -159,6 +159,11 @@ def lifetime(fn, timeout=None):
         try:
             os.close(r)
             faulthandler.dump_traceback_later(timeout * 0.9, exit=True)
+            # the cyclic garbage collector runs when allocation counters say so - a clock the simulator does not own.
+            # Whether an object caught in a reference cycle (an exception with its traceback) is still alive decides
+            # what the library's weak-reference table serves, so inside a lifetime cycles are simply never collected.
+            import gc
+            gc.disable()
 
             def emit(obj):
                 os.write(w, (json.dumps(obj, sort_keys=True, default=repr) + "\n").encode())
